@@ -1,21 +1,35 @@
 import UF.Model.Regex
 /-
-  Group P3 (REVIEW2 F3): a model of the one place where Go's `regexp/syntax` does NOT implement the
-  textbook semantics of the expression it is given.
+  Group P3 (REVIEW2 F3): a model of the one place where Go's `regexp/syntax` (go1.23) does NOT compile
+  the textbook semantics of the expression it is given.
 
-  `parser.factor` (parse.go), round 2, factors a common leading sub-expression out of adjacent
-  branches of an alternation when `first.Equal(ifirst)` and `first` is a one-rune literal / a class /
-  a fixed repeat of one.  `Regexp.Equal` compares the RUNES of two literals and ignores the fold-case
-  flag, and the prefix kept is the node of the FIRST branch of the run.  So a case-sensitive `A` and
-  the case-folded one-rune literal `(?i:A)` — which `parser.push` makes of a class `[aA]` (two cases
-  of a letter other than k, s) — are merged, and every branch of the run gets the flag of the first:
+  THE QUIRK.  `parser.factor` (parse.go) simplifies every alternation in four rounds.  Round 2 factors a
+  common leading sub-expression out of a run of ADJACENT alternatives when `first.Equal(ifirst)` and
+  `first` is a one-rune literal, a character class, or a fixed repeat `{n}` of one; the prefix kept is
+  the node of the FIRST alternative of the run.  `Regexp.Equal` (regexp.go) compares the RUNES of two
+  literals and not their `FoldCase` flag.  `parser.push` rewrites a class of the two cases of a letter
+  (`[aA]`; not k, s, whose fold orbits have a third member) into the one-rune literal `A` WITH the flag,
+  so that in a case-sensitive context
 
-      A.|[aA]      is compiled as   A(?:.|(?:))         ("a" is NOT matched)
-      [aA]b|A.     is compiled as   (?i:A)(?:b|.)       ("ax" IS matched)
+      A.|[aA]      is compiled as   A(?:.|(?:))         ("a" is NOT matched; the language shrinks)
+      [aA]b|A.     is compiled as   (?i:A)(?:b|.)       ("ax" IS matched; the language grows)
 
-  With a leading `(?i)` every literal carries the flag and nothing diverges.
+  EXACT CHARACTERISATION.  Go's tree differs from the textbook reading of the text iff, for some
+  alternation list as `factor` sees it — i.e. after (1) the hoisting of nested non-capturing alternations
+  (`collapse`), (2) the merging of adjacent one-character alternatives into a class (`swapVerticalBar`),
+  (3) round 1, which extracts common leading literal STRINGS of alternatives with EQUAL flags, and
+  recursively for the alternation of the suffixes that rounds 1 and 2 build — a run of adjacent members
+  has leading one-rune literals (or fixed repeats `{n}` of one, same `n`, same greediness) with the same
+  rune `X` and different fold flags.  Every member of the run then gets the flag of the first.  In ASCII
+  `X` is an upper-case letter other than K and S; the case-sensitive literal comes from `X`, `[X]`, `\x58`;
+  the folded one from `[xX]` (any spelling of that class), `(?i:x)`, or a non-capturing `(?:x|X)`.
+  Lower-case `x` is never affected (`(?i:x)` stores the rune `X`).  Everything else `factor` does
+  preserves the language; with a leading `(?i)` every literal has the flag and nothing diverges.
+  Round 1 matters: `Ab|Ac|[aA]d` is `A[b-d]` (the string prefix `A` of the first two joins the run),
+  but `Ab|[aA]d` is untouched (the leading literal `Ab` has two runes).  So does grouping:
+  `X(?:A.)|[xX]y` is `X(?:A.|y)`, `XA.|[xX]y` is untouched.
 
-  The model: `simFrame` replays what the parser does with one alternation (one frame: the top level
+  THE MODEL.  `simFrame` replays what the parser does with one alternation (one frame: the top level
   or the inside of a capture group) — `maybeConcat` (adjacent literals with the same flag are one
   string), the merge of adjacent one-character branches in `swapVerticalBar`, the four rounds of
   `factor` with the recursion on the factored suffixes — on a copy `G` of Go's node type in which every
@@ -23,12 +37,18 @@ import UF.Model.Regex
   back as a table `leaf ↦ final fold flag`, and `applyFlags` rewrites the flags of the leaves of the
   textbook tree accordingly (a class `[aA]` that ended in a case-sensitive literal becomes the literal
   `A`).  The rewritten tree has the shape of the written one (`FoldRel`, UF/Compose2) and the language
-  of Go's tree.
+  of Go's tree.  The same replay yields the literals `requiredRegexpLiterals` collects (`quirkReq`).
 
-  Domain: expressions without non-capturing groups `(?:…)` and without non-greedy counted
-  repetitions (their parse trees do not determine Go's grouping; `parseRE` answers `none` for them
-  when — and only when — the expression contains a source of case-folded literals, `hazard`).
-  Validated against the real engine by the `re.quirk` / `i2.quirk` families (harness/op_quirk.go).
+  DOMAIN.  Expressions without non-capturing groups `(?:…)` and without non-greedy counted
+  repetitions `{n}?` (the textbook tree does not determine Go's grouping for them: `X(?:A.)` and `XA.`
+  are the same tree; `Equal` compares greediness, which the tree does not record; `(?i:…)` is outside the
+  parser's subset anyway).  `goTree` (UF/Model/RegexParse.lean) answers `none` for them when — and only
+  when — the expression contains a source of case-folded literals (`hazard`).
+  Validated against the real engine by the families `re.quirk` / `i2.quirk` (harness/op_quirk.go), the
+  quirk shapes mixed into `re`, `i2.pat`, `i2.match`, `i2.textmatch`, `i2.reshortcut`, and an exhaustive
+  run (every alternation of two branches of ≤ 3 atoms / three branches of ≤ 2 atoms over
+  `A a [aA] . b B [bB]`, and of two branches of ≤ 2 atoms over these and `[A] A{2} [aA]{2} (A) A*`, inside
+  `^(…)$`, against every subject of ≤ 3 letters over `aAbB`: 31.4 M lines, no disagreement).
 -/
 namespace UF.Re
 
